@@ -19,7 +19,10 @@ use std::panic::{catch_unwind, AssertUnwindSafe};
 // the Debug text of the largest state of the unchanged tree (three active mappings of the longest built-in) is below 1 500 characters
 const MAX_STATE_TEXT: usize = 2500;
 
-struct Job { id: String, layout: Option<Layout>, load_err: String, keys: Vec<KeyCode>, maxheld: usize }
+struct Job { id: String, layout: Option<Layout>, load_err: String, keys: Vec<KeyCode>, maxheld: usize,
+             // what the SPECIFICATION says the source means (Fancy!Expand), when the layout came through the real loader: the table is
+             // the real loader's + the real mapper's, the layout the properties are judged against is the reference one
+             layout_ref: Option<Value> }
 
 struct Tabled {
   hdr: Value,
@@ -32,7 +35,7 @@ fn tabulate_one(job: &Job, maxstates: usize, total: &std::sync::atomic::AtomicUs
   let keys = &job.keys;
   let evlist: Vec<Event> = keys.iter().flat_map(|k| vec![Pressed(*k), Released(*k)]).collect();
   let mk_hdr = |layout: Value, count: usize, truncated: bool, panic: String, panics: Vec<Value>| json!({
-    "id": job.id, "layout": layout, "keys": jkeys(keys), "maxheld": job.maxheld,
+    "id": job.id, "layout": job.layout_ref.clone().unwrap_or(layout), "keys": jkeys(keys), "maxheld": job.maxheld,
     "first": 0, "count": count, "truncated": truncated, "panic": panic, "panics": panics, "rejected": ""
   });
   let layout = match &job.layout {
@@ -183,7 +186,8 @@ pub fn cmd_tabulate(jobs_path: &str, outdir: &str, threads: usize) {
     } else {
       match playout(&jv["layout"]) { Ok(l) => (Some(l), String::new()), Err(e) => { eprintln!("bad layout in job: {}", e); std::process::exit(2) } }
     };
-    jobs.push(Job { id: jv["id"].as_str().unwrap_or("").to_string(), layout, load_err, keys, maxheld: jv["maxheld"].as_u64().unwrap_or(3) as usize });
+    jobs.push(Job { id: jv["id"].as_str().unwrap_or("").to_string(), layout, load_err, keys, maxheld: jv["maxheld"].as_u64().unwrap_or(3) as usize,
+                    layout_ref: jv.get("layout_ref").cloned() });
   }
   std::fs::create_dir_all(outdir).unwrap();
   let jobs = std::sync::Arc::new(jobs);
@@ -263,18 +267,12 @@ pub fn cmd_walk(jobs_path: &str) {
     // a given history is followed exactly (replay); otherwise the walk is random
     let script: Option<Vec<Value>> = jv.get("history").and_then(|h| h.as_array().cloned());
     let steps = script.as_ref().map(|h| h.len()).unwrap_or(steps);
+    // the history first (None = the tablet-mode reset), then the run
+    let mut history: Vec<Option<crate::keys::Event>> = vec![];
     for si in 0..steps {
       let scripted: Option<&Value> = script.as_ref().map(|h| &h[si]);
       let roll = match scripted { Some(e) => if e["t"].as_str() == Some("RA") { 0 } else { 50 }, None => rng.below(100) };
-      if roll < 1 {
-        // the tablet-mode reset
-        match catch_unwind(AssertUnwindSafe(|| mapper.release_all())) {
-          Ok(evs) => writeln!(out, "{}", json!({"c": "step", "e": {"t": "RA", "k": ""}, "ev": jevs(&evs), "rep": {"kind": "NoChange"}, "st": jstate(&mapper.verif_snapshot()), "panic": ""})).unwrap(),
-          Err(e) => { writeln!(out, "{}", json!({"c": "step", "e": {"t": "RA", "k": ""}, "ev": [], "rep": {"kind": "NoChange"}, "st": jstate(&mapper.verif_snapshot()), "panic": panic_msg(e)})).unwrap(); break; }
-        }
-        held.clear();
-        continue;
-      }
+      if roll < 1 { history.push(None); held.clear(); continue; }
       // mostly well-formed events, biased towards releasing when many keys are held; some ill-formed ones
       let ev = if let Some(e) = scripted { pev(e).unwrap() } else if roll < 8 {
         let k = keys[rng.below(keys.len())];
@@ -288,6 +286,26 @@ pub fn cmd_walk(jobs_path: &str) {
         Pressed(free[rng.below(free.len())])
       };
       match &ev { Pressed(k) => { if !held.contains(k) { held.push(*k); } }, Released(k) => held.retain(|h| h != k) }
+      history.push(Some(ev));
+    }
+    if jv["via"].as_str() == Some("loop") {
+      // the same history through the REAL per-device loop and the REAL driver (system-call level): one event per
+      // wake-up; a reset is the tablet switch going on and off; `ev` is what the loop WROTE after reading the event
+      for rec in crate::looprun::walk_via_loop(&layout, &history, jv["noise"].as_u64().unwrap_or(0) as u8) { writeln!(out, "{}", rec).unwrap(); }
+      continue;
+    }
+    for h in history {
+      let ev = match h {
+        None => {
+          // the tablet-mode reset
+          match catch_unwind(AssertUnwindSafe(|| mapper.release_all())) {
+            Ok(evs) => writeln!(out, "{}", json!({"c": "step", "e": {"t": "RA", "k": ""}, "ev": jevs(&evs), "rep": {"kind": "NoChange"}, "st": jstate(&mapper.verif_snapshot()), "panic": ""})).unwrap(),
+            Err(e) => { writeln!(out, "{}", json!({"c": "step", "e": {"t": "RA", "k": ""}, "ev": [], "rep": {"kind": "NoChange"}, "st": jstate(&mapper.verif_snapshot()), "panic": panic_msg(e)})).unwrap(); break; }
+          }
+          continue;
+        },
+        Some(ev) => ev
+      };
       match catch_unwind(AssertUnwindSafe(|| mapper.step(ev.clone()))) {
         Ok(r) => writeln!(out, "{}", json!({"c": "step", "e": jev(&ev), "ev": jevs(&r.events), "rep": jrep(&r.repeat), "st": jstate(&mapper.verif_snapshot()), "panic": ""})).unwrap(),
         Err(e) => { writeln!(out, "{}", json!({"c": "step", "e": jev(&ev), "ev": [], "rep": {"kind": "NoChange"}, "st": jstate(&mapper.verif_snapshot()), "panic": panic_msg(e)})).unwrap(); break; }
